@@ -497,6 +497,7 @@ class SpooledStringIO(SpooledIOBase):
     def len(self):
         """Determine the number of codepoints in the file"""
         pos = self.buffer.tell()
+        tell = self._tell
         self.buffer.seek(0)
         total = 0
         while True:
@@ -505,6 +506,7 @@ class SpooledStringIO(SpooledIOBase):
                 break
             total += len(ret)
         self.buffer.seek(pos)
+        self._tell = tell  # the counting reads above advanced it
         return total
 
 
